@@ -211,7 +211,9 @@ fn decode_generic<T: 'static>(mut s: Streaming<T>, show: impl Fn(&T) -> Value, e
 }
 
 fn make_body(stim: &Value, wire: &[u8], enc_trailers: Option<http::HeaderMap>, ev: &mut Vec<Value>) -> (ScriptBody, Arc<AtomicUsize>) {
-    let cuts: Vec<usize> = stim["cuts"].as_array().map(|a| a.iter().map(|x| x.as_u64().unwrap_or(1).max(1) as usize).collect()).unwrap_or_default();
+    // cuts: chunk sizes; a 0 is an EMPTY data frame (only where written explicitly: the last entry, which repeats, is never 0)
+    let mut cuts: Vec<usize> = stim["cuts"].as_array().map(|a| a.iter().map(|x| x.as_u64().unwrap_or(1) as usize).collect()).unwrap_or_default();
+    if cuts.last() == Some(&0) { cuts.push(1); }
     let pend: Vec<usize> = stim["body_pend"].as_array().map(|a| a.iter().map(|x| x.as_u64().unwrap_or(0) as usize).collect()).unwrap_or_default();
     let tail = stim["tail"].as_str().unwrap_or("none");
     let tail_at = stim["tail_at"].as_u64().unwrap_or(u64::MAX) as usize;
@@ -222,6 +224,7 @@ fn make_body(stim: &Value, wire: &[u8], enc_trailers: Option<http::HeaderMap>, e
     while p < wire.len() {
         if tail == "body_err" && k == tail_at { break; }
         let want = if cuts.is_empty() { wire.len() } else { cuts[k.min(cuts.len() - 1)] };
+        if want == 0 { q.push_back(BItem::Data(vec![])); script.push(json!({"k":"d","n":0,"at":p as u64})); sizes.push(0); k += 1; continue; }
         let n = want.min(wire.len() - p);
         if pend.contains(&k) { q.push_back(BItem::Pend); script.push(json!({"k":"p","n":0,"at":p as u64})); }
         q.push_back(BItem::Data(wire[p..p + n].to_vec()));
@@ -338,6 +341,8 @@ pub fn gen(seed: u64, tier: &str) -> Vec<Value> {
         if sizes.iter().any(|&s| s >= 1000) { cuts.push(4096); }
         // dribble: the whole body in 1..3-byte chunks (hundreds of ready frames inside one message)
         if i % 9 == 4 { cuts = vec![[1usize, 1, 2, 3][rng.gen_range(0..4)]]; }
+        // empty DATA frames at random positions (two cut points coincide)
+        if i % 4 == 1 { for _ in 0..rng.gen_range(1..4) { let at = rng.gen_range(0..=cuts.len()); cuts.insert(at, 0); } }
         let body_pend: Vec<usize> = (0..rng.gen_range(0..4)).map(|_| rng.gen_range(0..8)).collect();
         out.push(json!({"kind":"rt","role":role,"enc":enc,"override": role == "server" && rng.gen_bool(0.2),
             "codec": if prost {"prost"} else {"raw"}, "bufsz":bufsz,"yield":yld,"limit_enc":-1,"limit_dec":-1,
@@ -359,7 +364,7 @@ pub fn compress_with(enc: &str, data: &[u8]) -> Vec<u8> {
         _ => data.to_vec(),
     }
 }
-fn rand_cuts(rng: &mut impl Rng) -> Vec<usize> { (0..rng.gen_range(0..6)).map(|_| [1usize, 1, 2, 3, 4, 5, 6, 7, 9, 64][rng.gen_range(0..10)]).collect() }
+fn rand_cuts(rng: &mut impl Rng) -> Vec<usize> { (0..rng.gen_range(0..6)).map(|_| [1usize, 1, 2, 3, 4, 5, 6, 7, 9, 64, 0, 0][rng.gen_range(0..12)]).collect() }
 
 pub fn gen_hostile(seed: u64, tier: &str) -> Vec<Value> {
     let mut rng = rand::rngs::StdRng::seed_from_u64(seed ^ 0xC07);
@@ -401,6 +406,20 @@ pub fn gen_hostile(seed: u64, tier: &str) -> Vec<Value> {
             "limit_enc": -1, "limit_dec": (*[-1i64, -1, 7, 64].get(rng.gen_range(0..4)).unwrap()), "items": [], "wire": bytes_json(&wire),
             "cuts": rand_cuts(&mut rng), "body_pend": (0..rng.gen_range(0..3)).map(|_| rng.gen_range(0..6)).collect::<Vec<usize>>(),
             "tail": tail, "tail_at": rng.gen_range(0..5), "extra_polls": 4}));
+    }
+    // a compressed message whose wire form is within the limit but which inflates far past it: it is accepted (the limit is
+    // about the wire) and must be delivered whole, not cut to the limit
+    for (j, enc) in ["gzip", "deflate", "zstd", "gzip"].iter().enumerate() {
+        for lim in [64i64, 100] {
+            let plain: Vec<u8> = (0..(200 + 50 * j)).map(|x| [b'q', b'r'][(x / 40) % 2]).collect();
+            let mut wire = frame(0, &[1]);
+            wire.extend(frame(1, &compress_with(enc, &plain)));
+            wire.extend(frame(0, &[2, 2]));
+            let role = if j % 2 == 0 { "server" } else { "client" };
+            out.push(json!({"kind":"dec","class":"inflates_past_limit","role":role,"dec_enc":enc,"enc":"identity","override":false,"codec":"raw","bufsz":64,"yield":32768,
+                "limit_enc": -1, "limit_dec": lim, "items": [], "wire": bytes_json(&wire), "cuts": rand_cuts(&mut rng), "body_pend": Vec::<usize>::new(),
+                "tail": if role == "server" { "trailers_ok" } else { "none" }, "tail_at": 0, "extra_polls": 4}));
+        }
     }
     // dribble: long messages (valid, truncated, followed by an illegal flag) delivered in 1..3-byte frames that are all ready
     // at once - several hundred frames inside one message
